@@ -13,7 +13,7 @@ RULE = ('Probe grid: fault kind {division, modulo (also compound /= %=), index o
         'preemptive defeat function into unavoidable defeat} x element type {int, byte, bool, string element, string} x storage '
         '{local literal, local dynamic array, mutable global, const global, parameter bound to const-section / state-constant / '
         'mutable storage, argv array, argv string} x access form {read, write, compound + - * / %, read in condition, in an '
-        'argument list} x operand from argv over a boundary grid (index -1, 0, len-1, len, len+1, MAX, MIN, -len; divisor 0, '
+        'argument list} x form of the index / length expression {parameter, computed, global, array element, narrowed to byte} x operand from argv over a boundary grid (index -1, 0, len-1, len, len+1, MAX, MIN, -len; divisor 0, '
         '+-1, MIN, MAX; length -9..-1, 0, 1, 8, too-large, MAX, MIN) x word sizes {2,3,4}. Each probe prints a marker, sets '
         'canaries (a local, a neighbouring array, a global), performs the one fault-prone operation with side-effect-free '
         'operands, then prints a marker and the canaries. Oracle: the reference interpreter (through the independent parser '
@@ -57,6 +57,12 @@ def access_stmt(form, el, arr_name, idx):
     raise ValueError(form)
 
 
+# forms of the index / length expression: the same value reaches the check as a parameter, a computed int, a global,
+# an array element, and narrowed to byte (then only the low byte decides whether the fault occurs)
+IDX_FORMS = ['i', 'i + z', 'gi', 'IX[1]', '(i + z) is byte', '(gi * 1) is byte']
+LEN_FORMS = ['n', 'n + z', 'gn', '(n + z) is byte', 'LN[0] is byte']
+
+
 def index_probes():
     """-> list of (name, source, argv builder(index) -> vals)"""
     out = []
@@ -76,12 +82,20 @@ def index_probes():
                 storages.append('argv')
             if el == 'string' and not writes:
                 storages.append('argv')
-            for stg in storages:
+            for stg, ixf in [(stg, ixf) for stg in storages
+                             for ixf in (IDX_FORMS if stg in ('local_literal', 'vla', 'global_mut', 'argv') else ['i'])]:
                 glob = GLOBAL_CANARY + helper
                 sig = 'int i'
                 body = ''
                 call = None
-                stmt = access_stmt(form, el, 'A', 'i')
+                stmt = access_stmt(form, el, 'A', ixf)
+                if 'gi' in ixf:
+                    glob += 'int gi = 0;\n'
+                    stmt = 'gi = i; ' + stmt
+                if 'z' in ixf:
+                    stmt = 'int z = 0; ' + stmt
+                if 'IX' in ixf:
+                    stmt = 'int[] IX = [5, i]; ' + stmt
                 if stg == 'local_literal':
                     body = '%s x0 = %s; %s[] A = [x0, %s, %s];' % (ty, vals[0], ty, vals[1], vals[2])
                 elif stg == 'local_hoisted_const':
@@ -121,7 +135,7 @@ def index_probes():
                         arr_ = {'int': [11, 22, 33], 'byte': [97, 98, 99], 'string': [b'p', b'qq', b'']}[el]
                         return [i, arr_]
                     return [i]
-                out.append(('index:%s:%s:%s' % (el, form, stg), src, mk))
+                out.append(('index:%s:%s:%s%s' % (el, form, stg, '' if ixf == 'i' else ':' + ixf), src, mk))
     # strings
     for stg in ('literal', 'local', 'global', 'argv', 'param', 'element', 'as_bytes'):
         for form in ('read', 'cond', 'arg'):
@@ -194,9 +208,17 @@ def division_probes():
 def length_probes():
     out = []
     for el in ('int', 'byte', 'bool', 'string'):
-        for where in ('main', 'callee', 'nested', 'loop'):
+        for where, lf in [(w, lf) for w in ('main', 'callee', 'nested', 'loop') for lf in (LEN_FORMS if w in ('main', 'loop') else ['n'])]:
             glob = GLOBAL_CANARY
-            decl = '%s A[n]; write(A.length);' % el
+            pre = ''
+            if 'gn' in lf:
+                glob += 'int gn = 0;\n'
+                pre += 'gn = n; '
+            if 'z' in lf:
+                pre += 'int z = 0; '
+            if 'LN' in lf:
+                pre += 'int[] LN = [n, 3]; '
+            decl = '%s%s A[%s]; write(A.length);' % (pre, el, lf)
             if where == 'callee':
                 glob += 'empty alloc(int n) { %s }\n' % decl
                 stmt = 'alloc(n);'
@@ -207,7 +229,7 @@ def length_probes():
             else:
                 stmt = decl
             src = '%s\nempty @is_you(int n) {\n  %s\n  write(\'B\');\n  %s\n  %s\n}\n' % (glob, CANARY_DECL, stmt, CANARY_SHOW)
-            out.append(('length:%s:%s' % (el, where), src, lambda n: [n]))
+            out.append(('length:%s:%s%s' % (el, where, '' if lf == 'n' else ':' + lf), src, lambda n: [n]))
     return out
 
 
@@ -238,11 +260,11 @@ def grid(kind, ws):
     hi = (1 << (8 * ws - 1)) - 1
     lo = -hi - 1
     if kind.startswith(('index', 'strindex')):
-        return [-1, 0, 1, L - 1, L, L + 1, hi, lo, -L, 255, 256, hi - 1, lo + 1]
+        return [-1, 0, 1, L - 1, L, L + 1, hi, lo, -L, 255, 256, hi - 1, lo + 1, 256 + L - 1, 256 + L, -256, -254]
     if kind.startswith('div'):
         return [0, 1, -1, 2, hi, lo, 256, 255, -256]
     if kind.startswith('length'):
-        return [-9, -8, -7, -2, -1, 0, 1, 7, 8, 9, hi, lo, hi // ws, hi // ws + 1, lo + 1, 20000]
+        return [-9, -8, -7, -2, -1, 0, 1, 7, 8, 9, hi, lo, hi // ws, hi // ws + 1, lo + 1, 20000, 256, 257, 263, -256, -250, 511]
     return [0, 1]
 
 
